@@ -196,7 +196,59 @@ def reused_analysis_object(ctx, rng):
             ctx.count("reused_object_cases")
 
 
+def time_dependent_rates(ctx):
+    """a model with an explicitly time-dependent rate, analysed at t = 0 and at later times, with every scheme: the Jacobian
+    and the sensitivity to every parameter are the analytic derivatives of the rate equations *at that time*."""
+    import sympy
+    from bioscrape.analysis import py_get_jacobian, py_get_sensitivity_to_parameter, SensitivityAnalysis
+    spec = {"species": ["A", "B"], "reactions": [
+        {"reactants": [], "products": ["A"], "prop": {"type": "general", "rate": "k*exp(-g*t)/(1+(B/K)^2)"}},
+        {"reactants": ["A"], "products": [], "prop": {"type": "massaction", "k": "d1"}},
+        {"reactants": [], "products": ["B"], "prop": {"type": "massaction", "k": "b"}},
+        {"reactants": ["B"], "products": [], "prop": {"type": "massaction", "k": "d2"}}],
+        "params": {"k": 3.0, "g": 0.4, "K": 2.0, "d1": 0.5, "b": 1.0, "d2": 1.5}, "ic": {"A": 1, "B": 1}}
+    M = build_model(spec)
+    sl = M.get_species_list()
+    A, B, t = sympy.symbols("A B t")
+    ps = {n: sympy.Symbol(n) for n in spec["params"]}
+    f = {"A": ps["k"] * sympy.exp(-ps["g"] * t) / (1 + (B / ps["K"]) ** 2) - ps["d1"] * A, "B": ps["b"] - ps["d2"] * B}
+    sym = {"A": A, "B": B}
+    x = np.array([2.0 if s_ == "A" else 1.0 for s_ in sl])
+    sa = SensitivityAnalysis(M)
+    for tv in (0.0, 3.0, 1.25):
+        subs = {sym[s_]: float(v_) for s_, v_ in zip(sl, x)}
+        subs.update({ps[n]: v for n, v in spec["params"].items()})
+        subs[t] = tv
+        Jt = np.array([[float(sympy.diff(f[si], sym[sj]).subs(subs)) for sj in sl] for si in sl])
+        for method in METHODS:
+            tol = {"fourth_order_central_difference": 1e-6, "central_difference": 1e-3}.get(method, 5e-2)
+            for via in ("module", "object"):
+                case = {"scenario": "time-dependent rate", "time": tv, "method": method, "via": via}
+                ctx.begin_case(case)
+                J = np.array(py_get_jacobian(M, x.copy(), time=tv, method=method) if via == "module" else sa.compute_J(x.copy(), time=tv, method=method))
+                ctx.evaluated()
+                if np.max(np.abs(J - Jt)) > tol:
+                    ctx.violation("jacobian/time-dependent/" + method, "at t = %g: max |J - analytic| = %g (tolerance %g)" % (tv, float(np.max(np.abs(J - Jt))), tol),
+                                  dict(case, J=J.tolist(), analytic=Jt.tolist()))
+                    return
+                for pname in spec["params"]:
+                    Z = np.array(py_get_sensitivity_to_parameter(M, x.copy(), pname, time=tv, method=method) if via == "module"
+                                 else sa.compute_Zj(x.copy(), pname, time=tv, method=method)).flatten()
+                    ctx.evaluated()
+                    Zt = np.array([float(sympy.diff(f[si], ps[pname]).subs(subs)) for si in sl])
+                    if np.max(np.abs(Z - Zt)) > tol * 3:
+                        ctx.violation("sensitivity/time-dependent/" + method, "at t = %g: d f / d %s = %s, analytic %s (tolerance %g)" % (tv, pname, Z.tolist(), Zt.tolist(), tol * 3),
+                                      dict(case, param=pname))
+                        return
+                now = {n: float(v) for n, v in dict(M.get_parameter_dictionary()).items()}
+                if any(now[n] != float(v) for n, v in spec["params"].items()):
+                    ctx.violation("params-changed/time-dependent/" + method, "the analysis at t = %g changed the model's parameters: %s" % (tv, now), case)
+                    return
+                ctx.count("time_dependent_cases")
+
+
 def run(ctx):
+    time_dependent_rates(ctx)
     reused_analysis_object(ctx, ctx.rng)
     n = 25 if ctx.quick() else 500
     for i in range(n):
